@@ -11,6 +11,7 @@ import (
 	"github.com/google/trillian"
 
 	"verif/sim/kernel"
+	"verif/sim/oracle"
 )
 
 // Oracles of C20. Each clause is tied to a sentence of the property statement:
@@ -119,6 +120,12 @@ func (w *World) harvest(inc *incarnation) {
 		return
 	}
 	s.Probe("run.returned-nil")
+	if hasRV && !w.prof.Continuous && !inc.Cancelled && ps != nil {
+		w.successOnInconsistent(inc, ps, "returned nil (success)")
+		if s.Violated() {
+			return
+		}
+	}
 	// a one-shot run that reports success has migrated the whole history it verified
 	if hasRV && !w.prof.Continuous && !inc.Cancelled && ps != nil && ps.STHKnown && inc.hist == w.src.Honest {
 		for i := 0; i < ps.STHSize; i++ {
@@ -151,6 +158,42 @@ func (w *World) storedExtent() int {
 	return n
 }
 
+// inconsistent reports whether, by construction, the source history this incarnation is served cannot be
+// consistent with the non-empty destination root of the pass: the first min(root size, STH size) leaves
+// of the two differ. False whenever the pass saw no root, an empty root or no validly signed STH.
+func (w *World) inconsistent(inc *incarnation, ps *pass) bool {
+	if !ps.RootKnown || ps.RootSize == 0 || !ps.STHKnown {
+		return false
+	}
+	n := int(ps.RootSize)
+	if ps.STHSize < n {
+		n = ps.STHSize
+	}
+	if n > len(inc.hist.Entries) || n > len(w.dst.Seq) {
+		return false
+	}
+	return !bytes.Equal(inc.hist.Root(n), oracle.MTH(w.dst.Hashes(n)))
+}
+
+// successOnInconsistent: "moves past a non-empty destination root only if the source log proves that its
+// current STH is consistent with that root" - a pass that is concluded as a success (observably: a
+// one-shot Run* returning nil, or Controller.Run going on to its next pass) against a source whose STH
+// is not consistent with the destination root, without a verifying proof, has not refused the source.
+func (w *World) successOnInconsistent(inc *incarnation, ps *pass, how string) {
+	if ps.GateOpen || !w.inconsistent(inc, ps) {
+		return
+	}
+	rel := "larger than"
+	switch {
+	case uint64(ps.STHSize) == ps.RootSize:
+		rel = "equal to"
+	case uint64(ps.STHSize) < ps.RootSize:
+		rel = "smaller than"
+	}
+	w.s.Violate("consistency-gate", "success-without-proof-on-fork", "c%d pass %d %s although the destination root (size %d) is non-empty, the source's signed STH (size %d, %s the destination) belongs to a different history, and no verifying consistency proof was obtained (proof request: %s)",
+		inc.ID, ps.N, how, ps.RootSize, ps.STHSize, rel, ps.GateWhy)
+}
+
 // arrival handles a call of the code under test that has just reached the environment.
 func (w *World) arrival(p *kernel.Parked) {
 	inc := w.incByID(callInc(p))
@@ -160,6 +203,14 @@ func (w *World) arrival(p *kernel.Parked) {
 	switch c := p.Info.(type) {
 	case *dstCall:
 		if c.RPC == "GetLatestSignedLogRoot" {
+			// Controller.Run without election leaves on the first failed pass, so in that mode a further
+			// pass of the same run means that the previous one was concluded as a success
+			if prev := inc.Pass; prev != nil && w.prof.RunMode == "run" && prev.Excuse == "" {
+				w.successOnInconsistent(inc, prev, "concluded the pass quietly and went on to the next one")
+				if w.s.Violated() {
+					return
+				}
+			}
 			w.closePass(inc, "next-pass")
 			if w.s.Violated() {
 				return
@@ -342,7 +393,7 @@ func (w *World) closePass(inc *incarnation, why string) {
 			inc.ID, ps.N, why, f, rec.Count, rec.At)
 		return
 	}
-	refused := ps.RootKnown && ps.RootSize > 0 && !ps.GateOpen && ps.STHKnown && ps.Submitted == 0 && (ps.GateWhy == "fork" || ps.GateWhy == "bad-proof")
+	refused := ps.RootKnown && ps.RootSize > 0 && !ps.GateOpen && ps.STHKnown && ps.Submitted == 0 && (ps.GateWhy == "fork" || ps.GateWhy == "bad-proof" || (ps.GateWhy == "error-reply" && w.inconsistent(inc, ps)))
 	if refused {
 		s.Probe("inconsistent.refused." + ps.GateWhy)
 		w.refusals++
